@@ -54,6 +54,10 @@ def feature_tables(n, small=False):
         extra.append([("misc_feature", [(1, 3, 1, "within")], {"label": ["within"]}), ("misc_feature", [(0, 2, -1, "oneof")], {"label": ["oneof"]})])
         extra.append([("misc_feature", [(n - 2, n, 1, "between")], {"label": ["between"]}), ("misc_feature", [(0, n - 1, 1, "open")], {"label": ["open-ended"]}),
                       ("gene", [(n - 1, n, 1, "within"), (0, 1, 1, "oneof")], {"label": ["fuzzy-join"]})])
+    if n >= 2:
+        # qualifier values that are not lists of texts (records built by programs, moclo's own provenance features): a plain
+        # text, a number, an empty list, a tuple
+        extra.append([("CDS", [(0, 2, 1)], {"organism": "synthetic DNA construct", "codon_start": 1, "label": ["plain-values"], "db_xref": [], "EC_number": ("1.1.1.1",)})])
     if small:
         keep = [0, 1, 2, 4, 5, 6, 8, 10, 12, 13]
         tables = [t for i, t in enumerate(tables) if i in keep]
